@@ -21,6 +21,14 @@ CHECKS = {
              design="7/C06", note="One known finding (AssertionError in process_response for an inconsistent encryption flag) is filtered by call site."),
  "C07": dict(text="Both modes of the real decoder on the same symbolic input (all byte strings up to N per type; size/value/cut variants of shapes): events before the first warning, the wrapped error's class and details, and accept/no-warning equivalence; relational, no model.",
              design="7/C07", note="Error details are snapshotted when the warning is observed (the constraint object keeps counting afterwards)."),
+ "C16": dict(text="Every primitive type, v symbolic over every integer of its width: int/==/ordering against a second symbolic integer, operator delegation in both operand orders (opaque probe operand), big-endian two's-complement bytes, validity iff in the pinned set, text form = pinned member name / named-range offset; all partitions exhaust.",
+             design="7/C16", note="hash() is decided only on solver-enumerated boundary points (it concretises its argument)."),
+ "C17": dict(text="Every attribute type, v symbolic over the whole word: masks disjoint and covering, every accessor equals the arithmetic definition, the real pretty_attrs rows show exactly the field bits and dots; all partitions exhaust.",
+             design="7/C17", note=""),
+ "C18": dict(text="Every 32-bit TPM 2.0 response code (reserved high bits symbolic): text form equals the format rule written from the property with pinned name tables; the bit rows partition the word, carry the classification and show the field bits; all partitions exhaust.",
+             design="7/C18", note="Bit rows with symbolic reserved bits are decided for one representative low-12-bit pattern per class; for all low 12 bits with reserved bits zero."),
+ "C20": dict(text="Value sets and names of all primitive types (full width), selector totality of every union field (symbolic selector through the real process_tpmu), command-code totality and naming (symbolic code) decided by the solver; structural facts and the regenerated layout encoding compared with the pinned snapshot directly.",
+             design="7/C20", note="The snapshot oracle/pinned/layout.json is the trusted 'pinned TPM 2.0 layout'; it was taken from the tree after the fix commits and audited as described in DESIGN.md."),
  "C13": dict(text="Every strict-mode constraint error reached from all byte strings up to N per type and from size/value variants of shapes: emitted bytes + consumed offending bytes + remaining bytes = input, prefix/suffix exact; relational.",
              design="7/C13", note=""),
 }
